@@ -21,7 +21,11 @@ type Value struct {
 	value      proto.Message
 	changeTime time.Time
 
-	bus minibus.Bus
+	// pubMu is held from just before a write is committed until its change has been sent on the bus,
+	// so that changes are published in the order they were committed.
+	// Lock order: pubMu before mu.
+	pubMu sync.Mutex
+	bus   minibus.Bus
 }
 
 func NewValue(opts ...Option) *Value {
@@ -59,18 +63,22 @@ func (r *Value) set(value proto.Message, request WriteRequest) (proto.Message, e
 	}
 
 	disarm := timeoutAlarm(time.Second, "GetAndUpdate took too long")
+	var publishing bool
 	_, newValue, err := GetAndUpdate(
 		&r.mu,
 		func() (proto.Message, error) {
 			return r.value, nil
 		},
-		request.changeFn(writer, value),
+		publishInOrder(&r.pubMu, &publishing, request.changeFn(writer, value)),
 		func(message proto.Message) {
 			r.value = message
 			r.changeTime = request.updateTime(r.clock)
 		},
 	)
 	disarm()
+	if publishing {
+		defer r.pubMu.Unlock()
+	}
 
 	if err != nil {
 		return nil, err
